@@ -409,7 +409,13 @@ func (s *BaseNodeService) ProposeSignMessages(dtoMsg *dto.ProposeSignBatchMessag
 		return fmt.Errorf("failed to determine FSM instance state: %w", err)
 	}
 
-	if fsmState != sif.StateSigningIdle {
+	// A cancelled batch is restarted lazily, when the next message of the round
+	// is processed (see processMessage). If the cancelling message was the last
+	// one of its batch, no further message ever arrives, so a new proposal must
+	// be allowed to be that message.
+	if fsmState != sif.StateSigningIdle &&
+		fsmState != sif.StateSigningPartialSignsAwaitCancelledByError &&
+		fsmState != sif.StateSigningPartialSignsAwaitCancelledByTimeout {
 		return fmt.Errorf("required FSM state is %s, but have %s", sif.StateSigningIdle, fsmState)
 	}
 
